@@ -55,6 +55,10 @@ func innersShape(st *slim.SlimTrie) (bitsLen int, last byte, ok bool) {
 // after emitting the build op.  The search itself calls the real builder
 // directly; only the selected cases go into the script.
 func boundaryCases(c *lp.Ctx, budget int, each func(cs *Case)) {
+	boundaryCasesF(c, budget, func() string { return randFlags(c.Rng) }, each)
+}
+
+func boundaryCasesF(c *lp.Ctx, budget int, flagsFn func() string, each func(cs *Case)) {
 	found := map[string]int{}
 	tries := 0
 	for found["0s"]+found["0n"]+found["0b"] < budget && tries < 40*budget {
@@ -73,7 +77,7 @@ func boundaryCases(c *lp.Ctx, budget int, each func(cs *Case)) {
 		if len(ks.Keys) < 8 {
 			continue
 		}
-		flags := randFlags(c.Rng)
+		flags := flagsFn()
 		enc := []string{"none", "i32", "s16"}[c.Rng.Intn(3)]
 		lo := len(ks.Keys) - 80
 		if lo < 4 {
@@ -137,6 +141,64 @@ func init() {
 				cs.viol(c, "String() must not panic", "trie.string", "a rendering", a)
 			}
 			cs.checkString(c)
+		})
+	})
+	complete := func(c *lp.Ctx) func() string { return func() string { return completeFlags(c.Rng) } }
+	lp.RegisterGen("C03", func(c *lp.Ctx) {
+		boundaryCasesF(c, c.Pick(6, 40), complete(c), func(cs *Case) {
+			tail := cs.Keys[len(cs.Keys)-min(len(cs.Keys), 8):]
+			for _, q := range gen.Queries(c.Rng, tail, 40) {
+				cs.checkExact(c, q)
+			}
+		})
+	})
+	lp.RegisterGen("C04", func(c *lp.Ctx) {
+		boundaryCasesF(c, c.Pick(6, 40), complete(c), func(cs *Case) {
+			tail := cs.Keys[len(cs.Keys)-min(len(cs.Keys), 8):]
+			for _, q := range gen.Queries(c.Rng, tail, 16) {
+				op := fmt.Sprintf("trie.iter %s 1 1 %d", lp.XS(q), 12)
+				cnt := 0
+				for _, k := range cs.RKeys {
+					if k >= q {
+						cnt++
+					}
+				}
+				pad := 0
+				if cnt < 12 {
+					pad = 12 - cnt
+				}
+				want := cs.scanItems(q, true, nil, false, true, 12, pad)
+				if got := c.Do(op); got != want {
+					cs.viol(c, "NewIter near the end of the key space (bitmap ends at a word boundary)", op, want, got)
+				}
+			}
+		})
+	})
+	lp.RegisterGen("C09", func(c *lp.Ctx) {
+		boundaryCases(c, c.Pick(6, 40), func(cs *Case) {
+			n := len(cs.RKeys)
+			for i := n - 1; i >= 0 && i >= n-10; i-- {
+				op := "trie.search " + lp.XS(cs.RKeys[i])
+				want := cs.valTok(i-1) + " " + cs.valTok(i) + " " + cs.valTok(i+1)
+				if got := c.Do(op); got != want {
+					cs.viol(c, "Search on a retained key (bitmap ends at a word boundary)", op, want, got)
+				}
+			}
+		})
+	})
+	lp.RegisterGen("C02", func(c *lp.Ctx) {
+		boundaryCases(c, c.Pick(6, 40), func(cs *Case) {
+			n := len(cs.Keys)
+			for i := n - 1; i >= 0 && i >= n-10; i-- {
+				op := "trie.rget " + lp.XS(cs.Keys[i])
+				want := "f nil"
+				if cs.Vals != nil {
+					want = cs.valAns(cs.Vals[i])
+				}
+				if got := c.Do(op); got != want {
+					cs.viol(c, "RangeGet on an indexed key (bitmap ends at a word boundary)", op, want, got)
+				}
+			}
 		})
 	})
 	lp.RegisterGen("C18", func(c *lp.Ctx) {
